@@ -24,6 +24,21 @@ CLAIMED = {
             "register_bitstrings/counts and collated_counts compared; random streams of 10-80 entries are validated by Trace_Shots.",
             "Tag tokens are bound to strings in harness/props/c19.py; floats equal to 0/1 and tags with trailing newline are outside the domain.",
             "DESIGN.md §5 C19"),
+    "C09": ("TLA+ spec Envelope.tla: TLC enumeration of all header byte pairs / truncations / corruptions / package "
+            "configurations + execution on EnvelopeHeader / Package (S->C)",
+            "TLC enumerates all 65536 format/flag byte pairs, all truncations and magic corruptions with DecodeHeader's verdict, "
+            "and every (0..n modules, 0..n extensions incl. two with the same name, format, zstd level incl. None and 0, bytes/text) "
+            "configuration of the Write/Read channel model (RoundTrip, FlagLaw, HeaderInverse invariants); each case is executed "
+            "on the real code: verdict and header fields, first ten bytes, flag bit <=> zstd frame, decoded package documents.",
+            "zstd/UTF-8/JSON codecs are opaque; MODULE formats only for header/refusal; module tokens bound to the catalogue in harness/catalog.py.",
+            "DESIGN.md §5 C09"),
+    "C16": ("TLA+ spec NodeHandle.tla: TLC enumeration of every (count, index) and (count, start, stop, step) + evaluation on real handles",
+            "TLC checks that the property-level definition (Python range slicing with the two documented deviations) agrees "
+            "with the transcription of the implemented algorithm on the whole bounded domain and emits every case; each is "
+            "evaluated on handles obtained from Node(), Hugr.add_node(num_outs=) and children(); port identity facts checked directly. "
+            "Builder-returned handles are covered through the builder model (see level note).",
+            "n <= 4/6, |i| <= 7/10, step in {None,1,2,3}; unknown-count handles only for i>=0, [:] and iteration.",
+            "DESIGN.md §5 C16"),
 }
 
 NOT_YET = "check not built yet in this round (planned: see DESIGN.md §5); nothing is claimed for it until its TLA+ spec and conformance legs exist"
